@@ -480,5 +480,5 @@ PROPERTIES = {
             "conditional directive — get their own line in parse_file's directive pass unless next_token attributed them to a line; (c) is_if/is_else/is_end partition all "
             "ConditionalDirectiveKind variants (exhaustive, disjoint: otherwise a directive gets no line or two); (d) each pass unconditionally ends with the Eof line, and pass "
             "consolidation skips only empty lines; (e) the lists of line tokens are mutated only by the reviewed functions and the directive tree is built from the whole "
-            "token slice; (f) passes stop only when every section of the directive tree is explored: explored()/pass() are complete, unadapted traversals of all sections, PassIter::next sets exhausted = tree.explored(). Not decided: strictly-increasing order, parent clauses, merging of passes. Added in round 6: (h) no parsed subtree of the conditional-directive tree is dropped (every builder result is moved into the structure on every path).", []),
+            "token slice; (f) passes stop only when every section of the directive tree is explored: explored()/pass() are complete, unadapted traversals of all sections, PassIter::next sets exhausted = tree.explored(). Not decided: strictly-increasing order, parent clauses, merging of passes. Added in round 6: (h) no parsed subtree of the conditional-directive tree is dropped (every builder result is moved into the structure on every path). Added in round 7: (i) every conditional-directive pass is given to the line parser.", []),
 }
